@@ -3,3 +3,5 @@
 
 #[cfg(kani)]
 mod i64_terminal;
+#[cfg(kani)]
+mod natural;
